@@ -46,7 +46,7 @@ func (s *Scope) SexpString(ps *PrintState) string {
 
 // Type() satisfies the Sexp interface, returning the type of the value.
 func (s *Scope) Type() *RegisteredType {
-	return GoStructRegistry.Lookup("packageScope")
+	return GoStructRegistry.Builtin["packageScope"]
 }
 
 func (env *Zlisp) NewScope() *Scope {
